@@ -278,3 +278,366 @@ Proof.
   - step2. unfold abort, EOUTOFDATA. cbn [size]. rewrite !Z.geb_leb.
     destruct (0 <=? sz) eqn:G; step2; rewrite ?(s64_id sz), ?(s64_id ps) by auto; reflexivity.
 Qed.
+
+(* ================================================================== *)
+(** * Compositional layer: any fuel, any caller *)
+
+Definition fn_of (f : string) : func :=
+  match lookup f helpers_ir with Some fn => fn | None => mkFunc [] [] [] None end.
+
+Lemma resolve_PVar prog m e x : (1 <= m)%nat -> resolve prog m e (PVar x) = ROk (e, (x, [])).
+Proof. intros H. destruct m; [lia|reflexivity]. Qed.
+
+(** what encoder_alloc(self_p, 1) returns *)
+Definition bit_p (s : cur) : Z := match encoder_alloc s 1 with COk (_, p) => p | _ => 0 end.
+
+Definition body_fuel : nat := 40.
+
+Lemma body_append_bit m b sz ps v : in_s64 sz = true -> in_s64 ps = true ->
+  exec_list helpers_ir (body_fuel + m)
+    [("self_p", cursor_val b sz ps); ("value", VInt v); ("pos", VUndef)]%string
+    (f_body (fn_of "encoder_append_bit")) =
+  match append_bit (mkCur b sz ps) v with
+  | COk s' => ROk ([("self_p", cur_val s'); ("value", VInt v); ("pos", VInt (bit_p (mkCur b sz ps)))]%string,
+                   if bit_p (mkCur b sz ps) <? 0 then FReturn None else FNormal)
+  | COob => RFail FOob | CUb => RFail FUb end.
+Proof.
+  intros Hsz Hps. unfold bit_p, cur_val, append_bit, encoder_alloc, alloc_gen.
+  pose proof (quot8_in_s64 _ Hps) as Q8.
+  step2.
+  destruct (in_s64 (ps + 1)) eqn:R; [|step2; reflexivity].
+  step2.
+  destruct (ps + 1 <=? sz) eqn:L.
+  - step2. rewrite R. step2. rewrite !(s64_id ps Hps), ?(s64_id _ R).
+    destruct (ps <? 0) eqn:P.
+    + step2. reflexivity.
+    + destruct (rem8_facts ps ltac:(lia)) as (S7 & SH).
+      step2. rewrite Q8. step2.
+      destruct (Z.rem ps 8 =? 0) eqn:A.
+      * rewrite Q8. step2. rewrite vset_bytes_cbn.
+        destruct (wr b (ps ÷ 8) 0) as [b1| |] eqn:W; [|step2; reflexivity|step2; reflexivity].
+        bit_tail b1 ps v Q8 S7 SH.
+      * bit_tail b ps v Q8 S7 SH.
+  - step2. unfold abort. cbn [size]. rewrite Z.geb_leb.
+    destruct (0 <=? sz) eqn:G; step2; rewrite ?(s64_id sz), ?(s64_id ps) by auto; reflexivity.
+Qed.
+
+(** ** One-step unfoldings of the interpreter (the fuel below stays folded) *)
+
+Definition call_body (prog : program) (n' : nat) (e : env) (f : string) (args : list arg)
+  : res (env * option Z) :=
+  match lookup f prog with
+  | None => RFail (FStuck ("unknown function " +++ f))
+  | Some fn =>
+    let fix bind (e0 : env) (ps : list (string * pmode)) (as_ : list arg)
+             (frame : env) (outs : list (string * (string * list sel) * bool))
+             {struct ps} : res (env * env * list (string * (string * list sel) * bool)) :=
+      match ps, as_ with
+      | [], [] => ROk (e0, frame, outs)
+      | (x, PByVal t) :: ps', AVal t' a :: as' =>
+        let^ (e1, z) := eval prog n' e0 a in
+        bind e1 ps' as' (frame ++ [(x, VInt (conv t z))]) outs
+      | (x, PByRef) :: ps', ARef p :: as' =>
+        let^ (e1, xs) := resolve prog n' e0 p in
+        let^ v := env_get e1 (fst xs) (snd xs) in
+        bind e1 ps' as' (frame ++ [(x, v)]) (outs ++ [(x, xs, false)])
+      | (x, PByRefScalar) :: ps', ARefScalar p :: as' =>
+        let^ (e1, xs) := resolve prog n' e0 p in
+        let^ v := env_get e1 (fst xs) (snd xs) in
+        bind e1 ps' as' (frame ++ [(x, VArr [v])]) (outs ++ [(x, xs, true)])
+      | (x, PByRef) :: ps', ARefScalar p :: as' =>
+        let^ (e1, xs) := resolve prog n' e0 p in
+        let^ v := env_get e1 (fst xs) (snd xs) in
+        bind e1 ps' as' (frame ++ [(x, VArr [v])]) (outs ++ [(x, xs, true)])
+      | _, _ => RFail (FStuck ("arguments of " +++ f))
+      end in
+    let^ (e1, frame, outs) := bind e (f_params fn) args [] [] in
+    let^ (frame', fl) := exec_list prog n' (frame ++ f_locals fn) (f_body fn) in
+    let fix copy_out (e0 : env) (os : list (string * (string * list sel) * bool)) {struct os} : res env :=
+      match os with
+      | [] => ROk e0
+      | (x, xs, scalar) :: os' =>
+        match lookup x frame' with
+        | None => RFail (FStuck "copy-out")
+        | Some v =>
+          let^ w := (if scalar then vget v [SelI 0] else ROk v) in
+          let^ e1 := env_set e0 (fst xs) (snd xs) w in
+          copy_out e1 os'
+        end
+      end in
+    let^ e2 := copy_out e1 outs in
+    match fl, f_ret fn with
+    | FReturn (Some z), Some t => ROk (e2, Some (conv t z))
+    | FReturn None, None | FNormal, None => ROk (e2, None)
+    | FNormal, Some _ => RFail FUb
+    | _, _ => RFail (FStuck ("return of " +++ f))
+    end
+  end.
+
+Lemma call_S prog n e f args : call prog (S n) e f args = call_body prog n e f args.
+Proof. reflexivity. Qed.
+
+Lemma exec_list_cons prog n e s r :
+  exec_list prog (S n) e (s :: r) =
+  let^ (e1, fl) := exec prog n e s in
+  match fl with FNormal => exec_list prog n e1 r | _ => ROk (e1, fl) end.
+Proof. reflexivity. Qed.
+
+Lemma exec_list_nil prog n e : exec_list prog (S n) e [] = ROk (e, FNormal).
+Proof. reflexivity. Qed.
+
+Lemma exec_SExpr prog n e a :
+  exec prog (S n) e (SExpr a) = let^ (e1, _) := eval prog n e a in ROk (e1, FNormal).
+Proof. reflexivity. Qed.
+
+Lemma eval_ECall prog n e f args :
+  eval prog (S n) e (ECall f args) =
+  let^ (e1, r) := call prog n e f args in
+  match r with Some z => ROk (e1, z) | None => ROk (e1, 0) end.
+Proof. reflexivity. Qed.
+
+(** the loop of [SFor], named *)
+Section ForLoop.
+  Context (prog : program) (n' : nat) (c : expr) (step body : list stmt).
+  Fixpoint for_loop (k : nat) (e0 : env) {struct k} : res (env * flow) :=
+    match k with
+    | O => RFail FFuel
+    | S k' =>
+      let^ (e2, z) := eval prog n' e0 c in
+      if z =? 0 then ROk (e2, FNormal)
+      else
+        let^ (e3, fl1) := exec_list prog n' e2 body in
+        match fl1 with
+        | FNormal =>
+          let^ (e4, fl2) := exec_list prog n' e3 step in
+          match fl2 with FNormal => for_loop k' e4 | _ => RFail (FStuck "flow in for step") end
+        | FBreak => ROk (e3, FNormal)
+        | FReturn v => ROk (e3, FReturn v)
+        end
+    end.
+End ForLoop.
+
+Lemma exec_SFor prog n e init c step body :
+  exec prog (S n) e (SFor init c step body) =
+  let^ (e1, fl) := exec_list prog n e init in
+  match fl with
+  | FNormal => for_loop prog n c step body n e1
+  | _ => RFail (FStuck "flow in for init")
+  end.
+Proof. reflexivity. Qed.
+
+Ltac wcbn := cbn [rbind fst snd app lookup update String.eqb Ascii.eqb Bool.eqb andb vget vset as_int
+                  f_params f_locals f_body f_ret].
+
+Lemma call_append_bit m e x a z b sz ps :
+  lookup x e = Some (cursor_val b sz ps) -> in_s64 sz = true -> in_s64 ps = true ->
+  eval helpers_ir (body_fuel + m) e a = ROk (e, z) ->
+  call helpers_ir (S (body_fuel + m)) e "encoder_append_bit" [ARef (PVar x); AVal I32 a] =
+  match append_bit (mkCur b sz ps) (conv I32 z) with
+  | COk s' => match update x (cur_val s') e with
+              | Some e' => ROk (e', None) | None => RFail (FStuck "update") end
+  | COob => RFail FOob | CUb => RFail FUb end.
+Proof.
+  intros Hx Hsz Hps Ha.
+  pose proof (body_append_bit m b sz ps (conv I32 z) Hsz Hps) as HB.
+  remember (body_fuel + m)%nat as M eqn:EM.
+  assert (HM : (1 <= M)%nat) by (subst M; unfold body_fuel; lia).
+  rewrite call_S. unfold call_body.
+  change (lookup "encoder_append_bit" helpers_ir) with (Some (fn_of "encoder_append_bit")).
+  cbv iota beta.
+  change (f_params (fn_of "encoder_append_bit")) with [("self_p", PByRef); ("value", PByVal I32)]%string.
+  change (f_locals (fn_of "encoder_append_bit")) with [("pos", VUndef)]%string.
+  change (f_ret (fn_of "encoder_append_bit")) with (@None ity).
+  wcbn. rewrite (resolve_PVar _ M e x HM). wcbn.
+  unfold env_get at 1. rewrite Hx. wcbn. rewrite Ha. wcbn.
+  rewrite HB.
+  destruct (append_bit {| buf := b; size := sz; pos := ps |} (conv I32 z)) as [s'| |]; [|reflexivity|reflexivity].
+  wcbn. unfold env_set. rewrite Hx. wcbn.
+  destruct (update x (cur_val s') e); wcbn;
+    destruct (bit_p {| buf := b; size := sz; pos := ps |} <? 0); reflexivity.
+Qed.
+
+Lemma call_append_bit_fail m e x a fl b sz ps :
+  lookup x e = Some (cursor_val b sz ps) ->
+  eval helpers_ir (body_fuel + m) e a = RFail fl ->
+  call helpers_ir (S (body_fuel + m)) e "encoder_append_bit" [ARef (PVar x); AVal I32 a] = RFail fl.
+Proof.
+  intros Hx Ha.
+  remember (body_fuel + m)%nat as M eqn:EM.
+  assert (HM : (1 <= M)%nat) by (subst M; unfold body_fuel; lia).
+  rewrite call_S. unfold call_body.
+  change (lookup "encoder_append_bit" helpers_ir) with (Some (fn_of "encoder_append_bit")).
+  cbv iota beta.
+  change (f_params (fn_of "encoder_append_bit")) with [("self_p", PByRef); ("value", PByVal I32)]%string.
+  wcbn. rewrite (resolve_PVar _ M e x HM). wcbn.
+  unfold env_get at 1. rewrite Hx. wcbn. rewrite Ha. reflexivity.
+Qed.
+
+(* ------------------------------------------------------------------ *)
+(** ** encoder_append_non_negative_binary_integer *)
+
+Lemma append_bit_s64 s v s' : append_bit s v = COk s' ->
+  in_s64 (size s) = true -> in_s64 (pos s) = true ->
+  in_s64 (size s') = true /\ in_s64 (pos s') = true.
+Proof.
+  unfold append_bit, encoder_alloc, alloc_gen. intros H Hs Hp.
+  destruct (negb (in_s64 (pos s + s64 (u64 1)))) eqn:R; [discriminate|].
+  apply negb_false_iff in R.
+  destruct (pos s + s64 (u64 1) <=? size s) eqn:L; cbn [cbind] in H.
+  - destruct (pos s <? 0); [inversion H; subst; cbn; auto|].
+    destruct (Z.rem (pos s) 8 =? 0).
+    + cbn [buf] in H. destruct (wr (buf s) (pos s ÷ 8) 0) as [b1| |]; cbn [cbind] in H; try discriminate.
+      destruct (rd b1 (pos s ÷ 8)); cbn [cbind] in H; try discriminate.
+      destruct ((v <? 0) || negb (in_s32 (Z.shiftl v (7 - Z.rem (pos s) 8)))); try discriminate.
+      destruct (wr b1 (pos s ÷ 8) _); cbn [cbind] in H; try discriminate.
+      inversion H; subst; cbn; auto.
+    + cbn [buf cbind] in H.
+      destruct (rd (buf s) (pos s ÷ 8)); cbn [cbind] in H; try discriminate.
+      destruct ((v <? 0) || negb (in_s32 (Z.shiftl v (7 - Z.rem (pos s) 8)))); try discriminate.
+      destruct (wr (buf s) (pos s ÷ 8) _); cbn [cbind] in H; try discriminate.
+      inversion H; subst; cbn; auto.
+  - change (- ENOMEM <? 0) with true in H. cbv iota in H. inversion H; subst.
+    unfold abort. destruct (size s >=? 0); cbn; auto.
+Qed.
+
+Definition nnbi_bit : expr :=
+  EBin OAnd U64 (EBin OShr U64 (ERead (PVar "value"))
+     (EBin OSub U64 (EBin OSub U64 (ERead (PVar "size")) (ERead (PVar "i"))) (ECast U64 (EConst 1))))
+     (ECast U64 (EConst 1)).
+Definition nnbi_c : expr := EBin OLt U64 (ERead (PVar "i")) (ERead (PVar "size")).
+Definition nnbi_step : list stmt :=
+  [SAssign (PVar "i") U64 (EBin OAdd U64 (ERead (PVar "i")) (ECast U64 (EConst 1)))].
+Definition nnbi_body : list stmt :=
+  [SExpr (ECall "encoder_append_bit" [ARef (PVar "self_p"); AVal I32 nnbi_bit])].
+
+Lemma nnbi_body_eq :
+  f_body (fn_of "encoder_append_non_negative_binary_integer") =
+  [SFor [SAssign (PVar "i") U64 (EConst 0)] nnbi_c nnbi_step nnbi_body].
+Proof. reflexivity. Qed.
+
+Definition nn_env (b : list Z) (sz ps val n i : Z) : env :=
+  [("self_p", cursor_val b sz ps); ("value", VInt val); ("size", VInt n); ("i", VInt i)]%string.
+
+Definition loop_fuel (m : nat) : nat := S (S (S (S (body_fuel + m)))).
+
+Lemma u64_id z : 0 <= z < 18446744073709551616 -> u64 z = z.
+Proof. apply u64_small. Qed.
+
+Lemma nnbi_frag_c m b sz ps val n i :
+  eval helpers_ir (loop_fuel m) (nn_env b sz ps val n i) nnbi_c =
+  ROk (nn_env b sz ps val n i, truth (i <? n)).
+Proof. unfold loop_fuel, body_fuel. symex. reflexivity. Qed.
+
+Lemma nnbi_frag_step m b sz ps val n i : 0 <= i < 18446744073709551615 ->
+  exec_list helpers_ir (loop_fuel m) (nn_env b sz ps val n i) nnbi_step =
+  ROk (nn_env b sz ps val n (i + 1), FNormal).
+Proof.
+  intros H. unfold loop_fuel, body_fuel. step2. rewrite !(u64_id (i + 1)) by lia. reflexivity.
+Qed.
+
+Lemma nnbi_frag_bit m b sz ps val n i : 0 <= i < n -> n < 18446744073709551616 ->
+  eval helpers_ir (body_fuel + m) (nn_env b sz ps val n i) nnbi_bit =
+  if (n - i - 1 <? 0) || (64 <=? n - i - 1) then RFail FUb
+  else ROk (nn_env b sz ps val n i, Z.land (Z.shiftr val (n - i - 1)) 1).
+Proof.
+  intros Hi Hn. unfold body_fuel. step2.
+  rewrite (u64_id (n - i)) by lia. rewrite (u64_id (n - i - 1)) by lia.
+  destruct ((n - i - 1 <? 0) || (64 <=? n - i - 1)); step2; reflexivity.
+Qed.
+
+Lemma nnbi_loop m val n : 0 <= n < 18446744073709551616 ->
+  forall j b sz ps i k, in_s64 sz = true -> in_s64 ps = true -> 0 <= i -> i + Z.of_nat j = n ->
+  (j < k)%nat ->
+  for_loop helpers_ir (loop_fuel m) nnbi_c nnbi_step nnbi_body k (nn_env b sz ps val n i) =
+  match append_nnbi_loop j (mkCur b sz ps) val n i with
+  | COk s' => ROk (nn_env (buf s') (size s') (pos s') val n n, FNormal)
+  | COob => RFail FOob | CUb => RFail FUb end.
+Proof.
+  intros Hn. induction j as [|j IH]; intros b sz ps i k Hsz Hps Hi Hj Hk.
+  - destruct k as [|k]; [lia|]. cbn [for_loop append_nnbi_loop].
+    rewrite nnbi_frag_c. wcbn.
+    replace (i <? n) with false by lia. cbn [truth Z.eqb buf size pos].
+    replace i with n by lia. reflexivity.
+  - destruct k as [|k]; [lia|]. cbn [for_loop append_nnbi_loop].
+    rewrite nnbi_frag_c. wcbn.
+    replace (i <? n) with true by lia. cbn [truth Z.eqb].
+    unfold nnbi_body at 1. unfold loop_fuel at 1.
+    rewrite exec_list_cons, exec_SExpr, eval_ECall.
+    pose proof (nnbi_frag_bit m b sz ps val n i ltac:(lia) ltac:(lia)) as Hbit.
+    destruct ((n - i - 1 <? 0) || (64 <=? n - i - 1)) eqn:SH.
+    + rewrite (call_append_bit_fail m (nn_env b sz ps val n i) "self_p" nnbi_bit FUb b sz ps eq_refl Hbit). reflexivity.
+    + rewrite (call_append_bit m (nn_env b sz ps val n i) "self_p" nnbi_bit _ b sz ps eq_refl Hsz Hps Hbit).
+      rewrite conv_I32_land1.
+      destruct (append_bit {| buf := b; size := sz; pos := ps |} (Z.land (Z.shiftr val (n - i - 1)) 1))
+        as [s1| |] eqn:AB; [|reflexivity|reflexivity].
+      destruct (append_bit_s64 _ _ _ AB Hsz Hps) as (Hsz1 & Hps1).
+      destruct s1 as [b1 sz1 ps1]. cbn [buf size pos] in *.
+      unfold nn_env at 1. wcbn. rewrite exec_list_nil. wcbn.
+      change [("self_p"%string, cur_val {| buf := b1; size := sz1; pos := ps1 |}); ("value"%string, VInt val); ("size"%string, VInt n); ("i"%string, VInt i)]
+        with (nn_env b1 sz1 ps1 val n i).
+      rewrite (nnbi_frag_step m) by lia. wcbn.
+      rewrite (IH b1 sz1 ps1 (i + 1) k) by (auto; lia). cbn [cbind]. reflexivity.
+Qed.
+
+Lemma eval_read_var prog n e x z : lookup x e = Some (VInt z) ->
+  eval prog (S (S n)) e (ERead (PVar x)) = ROk (e, z).
+Proof. intros H. cbn. unfold env_get. rewrite H. reflexivity. Qed.
+
+Lemma nnbi_frag_init m b sz ps val n :
+  exec_list helpers_ir (loop_fuel m)
+    [("self_p", cursor_val b sz ps); ("value", VInt val); ("size", VInt n); ("i", VUndef)]%string
+    [SAssign (PVar "i") U64 (EConst 0)] = ROk (nn_env b sz ps val n 0, FNormal).
+Proof. unfold loop_fuel, body_fuel. step2. reflexivity. Qed.
+
+Ltac rcbn := cbn [rbind fst snd app lookup update String.eqb Ascii.eqb Bool.eqb andb vget vset as_int
+                  f_params f_locals f_body f_ret map combine length Nat.eqb negb String.append env_set env_get].
+
+Theorem ir_encoder_append_nnbi_fuel : forall m b sz ps v n,
+  in_s64 sz = true -> in_s64 ps = true -> 0 <= n < 18446744073709551616 ->
+  (Z.to_nat n < loop_fuel m)%nat ->
+  run helpers_ir (S (S (S (loop_fuel m)))) "encoder_append_non_negative_binary_integer"%string
+      [cursor_val b sz ps; VInt v; VInt n] =
+  match append_nnbi (mkCur b sz ps) v n with
+  | COk s' => ROk (None, [cursor_val (buf s') (size s') (pos s'); VInt v; VInt n])
+  | COob => RFail FOob | CUb => RFail FUb end.
+Proof.
+  intros m b sz ps v n Hsz Hps Hn Hk. unfold run, append_nnbi.
+  change (lookup "encoder_append_non_negative_binary_integer" helpers_ir)
+    with (Some (fn_of "encoder_append_non_negative_binary_integer")).
+  cbv iota beta.
+  change (f_params (fn_of "encoder_append_non_negative_binary_integer"))
+    with [("self_p", PByRef); ("value", PByVal U64); ("size", PByVal U64)]%string.
+  rcbn. rewrite call_S. unfold call_body.
+  change (lookup "encoder_append_non_negative_binary_integer" helpers_ir)
+    with (Some (fn_of "encoder_append_non_negative_binary_integer")).
+  cbv iota beta.
+  change (f_params (fn_of "encoder_append_non_negative_binary_integer"))
+    with [("self_p", PByRef); ("value", PByVal U64); ("size", PByVal U64)]%string.
+  change (f_locals (fn_of "encoder_append_non_negative_binary_integer")) with [("i", VUndef)]%string.
+  change (f_ret (fn_of "encoder_append_non_negative_binary_integer")) with (@None ity).
+  rewrite nnbi_body_eq.
+  rcbn. rewrite resolve_PVar by lia. rcbn.
+  erewrite (eval_read_var _ _ _ "$value") by reflexivity. rcbn.
+  erewrite (eval_read_var _ _ _ "$size") by reflexivity. rcbn.
+  rewrite exec_list_cons, exec_SFor.
+  change (conv U64 v) with (u64 v). change (conv U64 n) with (u64 n). rewrite (u64_id n) by lia.
+  rewrite nnbi_frag_init. rcbn.
+  rewrite (nnbi_loop m (u64 v) n Hn (Z.to_nat n) b sz ps 0 (loop_fuel m)) by (auto; lia).
+  destruct (append_nnbi_loop (Z.to_nat n) {| buf := b; size := sz; pos := ps |} (u64 v) n 0)
+    as [s'| |]; [|reflexivity|reflexivity].
+  rcbn. rewrite exec_list_nil. unfold nn_env. rcbn. reflexivity.
+Qed.
+
+Theorem ir_encoder_append_nnbi : forall fuel b sz ps v n,
+  in_s64 sz = true -> in_s64 ps = true -> 0 <= n < 18446744073709551616 ->
+  (Z.to_nat n + 48 <= fuel)%nat ->
+  run helpers_ir fuel "encoder_append_non_negative_binary_integer"%string
+      [cursor_val b sz ps; VInt v; VInt n] =
+  match append_nnbi (mkCur b sz ps) v n with
+  | COk s' => ROk (None, [cursor_val (buf s') (size s') (pos s'); VInt v; VInt n])
+  | COob => RFail FOob | CUb => RFail FUb end.
+Proof.
+  intros fuel b sz ps v n Hsz Hps Hn Hf.
+  replace fuel with (S (S (S (loop_fuel (fuel - 47))))) by (unfold loop_fuel, body_fuel; lia).
+  apply ir_encoder_append_nnbi_fuel; auto. unfold loop_fuel, body_fuel. lia.
+Qed.
